@@ -349,11 +349,11 @@ func genExpArg(t *rapid.T, fn string) D {
 		var piv []int
 		switch fn {
 		case "Exp", "Expm1":
-			piv = []int{14149, 14150, 14220, 14221, 80, 81}
+			piv = []int{14149, 14150, 14220, 14221, 80, 81, 32767, 65536, 75300, 75450, 75600, 99999, 100000}
 		case "Exp2":
-			piv = []int{6211, 6212, 20413, 20414, 20415, 20516, 20517, 113, 48, 255, 256, 128, 192, 64}
+			piv = []int{6211, 6212, 20413, 20414, 20415, 20516, 20517, 113, 48, 255, 256, 128, 192, 64, 20703, 20704, 32767, 65536, 99999, 100000}
 		default:
-			piv = []int{6111, 6112, 6144, 6145, 6146, 6176, 6177, 6178, 6169, 6170}
+			piv = []int{6111, 6112, 6144, 6145, 6146, 6176, 6177, 6178, 6169, 6170, 6234, 6235, 9999, 10000, 32767, 65536}
 		}
 		ip := genNear(t, 30, piv...)
 		if ip < 0 {
